@@ -998,6 +998,13 @@ class Sym:
                         return one
                     if (isinstance(o, ast.GtE) and n == 2) or (isinstance(o, ast.Gt) and n == 1):
                         return f_not(one)
+                if isinstance(x, Opq) and x.kind == "len" and x.meta and isinstance(x.meta[0], Coll):
+                    its = self.exact_items(x.meta[0], st)
+                    if its is not None and len(its) <= 8:
+                        # a collection whose elements are there under known conditions: len > m  <=>  some m + 1 of them hold
+                        m, positive = {ast.Gt: (n, True), ast.GtE: (n - 1, True), ast.Lt: (n - 1, False), ast.LtE: (n, False)}[type(o)]
+                        g = TRUE if m < 0 else f_or([f_and([c for _v, c in sub]) for sub in itertools.combinations(its, m + 1)])
+                        return g if positive else f_not(g)
                 if isinstance(x, Opq) and x.kind == "len" and x.meta:
                     t = self.truth(x.meta[0], st)
                     if (isinstance(o, ast.Gt) and n == 0) or (isinstance(o, ast.GtE) and n == 1):
